@@ -110,6 +110,7 @@ type xferWorld struct {
 	lastMoved     int64
 	lastMoveAt    time.Duration
 	capHit        bool
+	noServer        bool               // start the client (and relays) only
 	clientConnector func(int) net.Conn // overrides the client's tunnel connector (C17)
 	paused        bool // a pause was requested at some point (keep-alive lines are legitimate)
 }
@@ -138,9 +139,13 @@ func newXferWorld(rc *runCtx, o *xferOpts) *xferWorld {
 			if bytes.Contains(data, []byte("::TRZSZ:TRANSFER:")) {
 				return true
 			}
+			// zmodem headers (and what may veto them in the same read) are detected per read as well
+			if o.filterOpts.EnableZmodem && (bytes.Contains(data, []byte("**\x18B0")) || bytes.Contains(data, []byte("**\x18B1"))) {
+				return true
+			}
 			return o.relays > 0 && len(data) < 4096 && (bytes.Contains(data, []byte("#EXIT:")) || bytes.Contains(data, []byte("#FAIL:")) || bytes.Contains(data, []byte("#fail:")))
 		}
-		l.SealAtomic = o.relays > 0
+		l.SealAtomic = o.relays > 0 || o.filterOpts.EnableZmodem
 		return l
 	}
 	x.kbd = w.NewLink("kbd")
@@ -313,6 +318,9 @@ func (x *xferWorld) start() {
 			verifsim.Sleep(time.Millisecond)
 		}
 		x.clientReady = true
+		if x.noServer {
+			return
+		}
 		// the "user" now types the command: the server process starts
 		x.launchServer()
 	})
